@@ -20,6 +20,11 @@
 //!   c l   link l connects            (even l: queue link, odd l: direct link)
 //!   d l   link l disconnects         s l  suspends      r l  resumes (hook)
 //!   t l   direct link l: the component drops its direct-update target, the link stays subscribed
+//!   a l   link l: an ABANDONED connect, early. The future (queue link: `query()`, which connects first; direct link:
+//!         `connect(target)`) is polled ONCE - Subscribe is queued - and dropped before the gate gets to the command;
+//!         then the gate runs. If a `c l` is in flight (`c:blk`, the gate lags) its task is cancelled instead.
+//!   b l   link l: an abandoned connect, late. `connect()` is polled once, the gate runs and ANSWERS (the answer sits
+//!         in the oneshot), the future is dropped without being polled again; then the gate runs.
 //!   q l   queue link l: one query()
 //!   k     clone the root gate        x c  drop clone c  (c >= 1)
 //!   F c   clone c: ONE process() call (returns at a status change)
@@ -146,6 +151,48 @@ impl St {
         if self.links[l].pending.is_some() { "blk" } else if self.links[l].conn { "ok" } else { "gone" }
     }
 
+    /// an abandoned connect: the requester goes away between queueing Subscribe and picking up the answer
+    async fn abandon(&mut self, l: usize, late: bool) -> &'static str {
+        if self.links[l].conn || self.closing() { return "skip" }
+        if let Some(t) = self.links[l].pending.take() {
+            // a connect() in flight (the gate lags): the task is cancelled, the link it owned goes with it; the
+            // component gets a new link to the same gate (same direct-update target)
+            if late { self.links[l].pending = Some(t); return "skip" }
+            t.abort();
+            let _ = t.await;
+            let link = self.agent.create_link();
+            self.links[l].lk = Some(if self.links[l].direct { LK::D(DirectLink::from(link)) } else { LK::Q(link) });
+            self.root_drain().await;
+            return "cut";
+        }
+        if self.stuck() { return "skip" }
+        if self.links[l].gone { return "gone" }
+        let mut lk = self.links[l].lk.take().unwrap();
+        if self.links[l].direct && self.links[l].tgt.is_none() {
+            self.links[l].tgt = Some(Arc::new(Tgt { log: self.links[l].dlog.clone() }));
+        }
+        let tgt: Option<Arc<dyn AnyDirectUpdate>> = self.links[l].tgt.clone().map(|t| t as Arc<dyn AnyDirectUpdate>);
+        let ready = {
+            let mut fut: Pin<Box<dyn Future<Output = Result<(), UnitStatus>> + Send + '_>> = match &mut lk {
+                LK::Q(link) if late => Box::pin(link.connect(false)),
+                LK::Q(link) => Box::pin(async move { link.query().await.map(|_| ()) }),
+                LK::D(dl) => Box::pin(dl.connect(tgt.unwrap(), false)),
+            };
+            let first = std::future::poll_fn(|cx| std::task::Poll::Ready(fut.as_mut().poll(cx))).await;
+            // late: the gate handles Subscribe and answers; nobody polls the future meanwhile
+            if first.is_pending() && late { settle().await; }
+            drop(fut);
+            first
+        };
+        self.links[l].lk = Some(lk);
+        self.root_drain().await;
+        match ready {
+            std::task::Poll::Pending => "ok",
+            std::task::Poll::Ready(Err(_)) => { self.links[l].gone = true; "gone" }
+            std::task::Poll::Ready(Ok(())) => "?",
+        }
+    }
+
     async fn link_cmd(&mut self, l: usize, what: &str) -> &'static str {
         if !self.links[l].conn || self.closing() || self.stuck() { return "skip" }
         if what == "s" && self.links[l].susp { return "skip" }
@@ -254,6 +301,7 @@ pub fn run_case(line: &str) -> String {
             "c" if num(o) < NLINKS => format!("c:{}", rt.block_on(st.connect(num(o)))),
             "d" | "s" | "r" if num(o) < NLINKS => format!("{}:{}", o[0], rt.block_on(st.link_cmd(num(o), o[0]))),
             "t" if num(o) < NLINKS => format!("t:{}", rt.block_on(st.target_drop(num(o)))),
+            "a" | "b" if num(o) < NLINKS => format!("{}:{}", o[0], rt.block_on(st.abandon(num(o), o[0] == "b"))),
             "q" if num(o) < NLINKS => format!("q:{}", rt.block_on(st.query(num(o)))),
             "u" => format!("u:{}", rt.block_on(st.update(num(o)))),
             "M" => format!("M:{}/{}", metrics.num_updates.load(SeqCst), metrics.num_dropped_updates.load(SeqCst)),
@@ -377,7 +425,8 @@ pub fn special(name: &str, args: &[String]) -> bool {
 
 // ---------------------------------------------------------------------------
 // c08-soak <millis> <seed>: real threads. Root gate + clones publish concurrently while queue
-// and direct links connect / suspend / disconnect, clones are created and dropped, then the
+// and direct links connect (half of the attempts are abandoned after 0-30 us and repeated) / suspend /
+// disconnect, clones are created and dropped, then the
 // gate is terminated. Everything is stamped with one logical clock; the recorded per-link
 // sequences are judged:
 //   (a) per (link, publisher): strictly increasing sequence numbers (at most once, in order);
@@ -524,6 +573,15 @@ pub fn soak(args: &[String]) {
                     let mut periods: Vec<Period> = vec![];
                     let mut gone = false;
                     'outer: loop {
+                        // every other attempt gives up on connect() after 0-30 us: before the gate got to the
+                        // Subscribe, or after it answered - whichever the schedule makes of it - and tries again
+                        if rng.below(2) == 0 {
+                            match tokio::time::timeout(Duration::from_micros(rng.below(30)), link.connect(false)).await {
+                                Ok(Ok(())) => {}
+                                Ok(Err(_)) => { gone = true; break; }
+                                Err(_) => continue,
+                            }
+                        }
                         if link.connect(false).await.is_err() { gone = true; break; }
                         let mut per = Period { t1: tick(), t2: 0, items: vec![] };
                         let k = 1 + rng.below(30);
@@ -561,6 +619,14 @@ pub fn soak(args: &[String]) {
                     let mut dl = DirectLink::from(link);
                     let mut periods: Vec<(u64, u64)> = vec![];
                     while !stop.load(SeqCst) {
+                        // abandoned connects, as for the queue links; the target stays the same
+                        if rng.below(2) == 0 {
+                            match tokio::time::timeout(Duration::from_micros(rng.below(30)), dl.connect(tgt.clone(), false)).await {
+                                Ok(Ok(())) => {}
+                                Ok(Err(_)) => break,
+                                Err(_) => continue,
+                            }
+                        }
                         if dl.connect(tgt.clone(), false).await.is_err() { break; }
                         let t1 = tick();
                         tokio::time::sleep(Duration::from_micros(rng.below(3000))).await;
